@@ -276,6 +276,25 @@ func (b *builder) mk(t *TR) graphql.Type {
 	panic("harness: bad TR")
 }
 
+// mkField: the *graphql.Field of a field configuration (nil for present=false).
+func (b *builder) mkField(f FieldC) *graphql.Field {
+	if !f.Present {
+		return nil
+	}
+	gf := &graphql.Field{Type: b.mk(f.Type)}
+	if len(f.Args) > 0 {
+		gf.Args = graphql.FieldConfigArgument{}
+		for _, a := range f.Args {
+			if !a.Present {
+				gf.Args[a.Name] = nil
+			} else {
+				gf.Args[a.Name] = &graphql.ArgumentConfig{Type: b.mk(a.Type)}
+			}
+		}
+	}
+	return gf
+}
+
 type harnessFault string
 
 // build performs the constructor calls of the configuration. It may panic if the LIBRARY panics inside a
@@ -330,18 +349,7 @@ func build(cfg *Config) (graphql.SchemaConfig, *builder) {
 						m[f.Name] = nil
 						continue
 					}
-					gf := &graphql.Field{Type: b.mk(f.Type)}
-					if len(f.Args) > 0 {
-						gf.Args = graphql.FieldConfigArgument{}
-						for _, a := range f.Args {
-							if !a.Present {
-								gf.Args[a.Name] = nil
-							} else {
-								gf.Args[a.Name] = &graphql.ArgumentConfig{Type: b.mk(a.Type)}
-							}
-						}
-					}
-					m[f.Name] = gf
+					m[f.Name] = b.mkField(f)
 				}
 			})
 			if tc.Kind == "INTERFACE" {
